@@ -16,11 +16,12 @@ sys.path.insert(0, os.path.join(os.path.dirname(HERE), "harness"))
 P = lambda path: {"$path": path}        # noqa: E731
 L = lambda lit: {"$lit": lit}           # noqa: E731
 
-INTS = [("-1", -1), ("0", 0), ("1", 1), ("2", 2), ("7", 7)]
+INTS = [("-1", -1), ("0", 0), ("1", 1), ("2", 2), ("7", 7), ("03", 3)]
 DOMAINS = {
     "func": [("ctlfuncs.work", P("ctlfuncs.work")), ("ctlfuncs.quick", P("ctlfuncs.quick")),
              ("ctlfuncs.plain", P("ctlfuncs.plain")), ("nosuch.module.f", P("nosuch.module.f")),
-             ("ctlfuncs._quiet", P("ctlfuncs._quiet")), ("ctlfuncs.decorated", P("ctlfuncs.decorated"))],
+             ("ctlfuncs._quiet", P("ctlfuncs._quiet")), ("ctlfuncs.decorated", P("ctlfuncs.decorated")),
+             ("ctlfuncs.holder.run", P("ctlfuncs.holder.run"))],
     "end_callback": [("ctlfuncs.cb", P("ctlfuncs.cb"))],
     "cancel_callback": [("ctlfuncs.cb", P("ctlfuncs.cb"))],
     "args": [("()", L("()")), ("(1,2)", L("(1,2)")), ("[3]", L("[3]")), ("('null','true')", L("('null','true')"))],
@@ -33,7 +34,7 @@ DOMAINS = {
     "kwargs_iter": [("[{'a':1},{'a':2}]", L("[{'a':1},{'a':2}]")), ("[]", L("[]"))],
     "num": INTS, "num_concurrent": [("0", 0), ("1", 1), ("2", 2)], "value": INTS, "number": INTS,
     "group_name": [("g1", "g1"), ("gx", "gx"), ("a\tb", "a\tb"), ("e\u0301\u212b", "e\u0301\u212b"),      # (not in NFC form)
-                   ("None", "None"), ("my_grp-100%s", "my_grp-100%s")],          # (the text None is a name like any other)
+                   ("None", "None"), ("my_grp-100%s", "my_grp-100%s"), ("", "")],          # (the text None is a name like any other)
     "msg": [("hello", "hello"), ("None", "None")], "label": [("lbl", "lbl")],
     "f": INTS, "el": [("kg", "kg")], "level": INTS, "limit": INTS,
     "task_ids": [([], []), (["0"], [0]), (["0", "1"], [0, 1]), (["5"], [5]), (["0", "0"], [0, 0])],
@@ -92,6 +93,8 @@ def build(cmd, choice):
         if p["name"] not in choice:
             continue
         text, val = domain(p["name"])[choice[p["name"]]]
+        if text == "" and p["kind"] in ("pos", "propval"):
+            text, val = domain(p["name"])[0]       # (an empty positional cannot be written on a command line: there is no quoting)
         if p["kind"] == "pos":
             words.append(text)
             args.append(val)
@@ -104,7 +107,7 @@ def build(cmd, choice):
         elif p["kind"] == "flag":
             opts.append("--" + dashed(p["name"]))
             kwargs[p["name"]] = True
-        elif ((len(text) + len(cmd["name"]) + len(choice)) % 3 == 0 or "_" in text) and " " not in text and text:
+        elif ((len(text) + len(cmd["name"]) + len(choice)) % 3 == 0 or "_" in text or text == "") and " " not in text:
             opts.append("--" + dashed(p["name"]) + "=" + text)       # the --option=value form
             kwargs[p["name"]] = val
         else:
